@@ -24,7 +24,7 @@ ID = 'C16'
 RULE = ('worlds of 2-3 tables over one content from tables.rand_spec (dims 1..4, five value kinds, metadata kinds, six id '
         'alphabets), each built by a different route {16 constructor input forms incl. caller CSR/CSC with stored zeros and '
         'unsorted indices, sort_order then inverse, filter keeping everything (ids / predicate), subsample at full depth, '
-        'transpose twice, copy, column/row access, nnz}; in half of the worlds one table differs in exactly one value / id / '
+        'transpose twice, copy, column/row access, nnz, and (30%) a CSR/CSC matrix with stored zeros / unsorted indices put in place directly}; in half of the worlds one table differs in exactly one value / id / '
         'order of two ids / metadata entry / presence of metadata / type; programs of 3-10 steps over {nnz, row/column '
         'access, iter, t[i,j], plain reads, ==, !=, descriptive_equality in both directions and on one object, copy}; '
         'compared with the model: every verdict, every returned nnz, and format/indptr/indices/data of every touched table '
@@ -160,6 +160,12 @@ def build_route(spec, route):
             t.nnz
         elif s == 'eq_self':
             t == t
+        elif isinstance(s, list) and s[0] == 'inject':
+            # a representation with explicitly stored zeros / unsorted indices in either format.
+            # Since the repairs no public operation leaves stored zeros behind (constructor,
+            # subsample and transform eliminate them), so they are put in place directly: the
+            # theorems quantify over them and the old defect stays detectable.
+            t._data = _raw_compressed(M, s[1], bool(s[2]), bool(s[3]))
         else:
             raise ValueError(s)
     return t
@@ -469,6 +475,8 @@ def rand_route(rng, spec, allow_subsample):
                 route.append(s)
         else:
             route.append(s)
+    if rng.random() < 0.3:
+        route.append(['inject', rng.choice(['csr', 'csc']), rng.randint(0, 1), rng.randint(0, 1)])
     return route
 
 
@@ -533,7 +541,7 @@ def rand_prog(rng, n_tables, r, c, length):
 
 
 def gen_case(rng):
-    if rng.random() < 0.2:
+    if rng.random() < 0.25:
         spec, ok = counts_spec(rng)
     else:
         spec, ok = T.rand_spec(rng, layout=False), False
@@ -541,6 +549,10 @@ def gen_case(rng):
     r, c = len(spec['oids']), len(spec['sids'])
     n = rng.choice([2, 2, 3])
     tabs = [{'route': rand_route(rng, spec, ok), 'mut': None} for _ in range(n)]
+    if ok and rng.random() < 0.6:
+        k = rng.randrange(n)
+        tabs[k]['route'] = tabs[k]['route'][:1] + ['subsample_full'] + \
+            [s for s in tabs[k]['route'][1:] if not (isinstance(s, list) and s[0] == 'sort_inverse')]
     if rng.random() < 0.5:
         k = rng.randrange(n)
         tabs[k] = {'route': rand_route(rng, spec, False), 'mut': rand_mut(rng, spec)}
@@ -553,7 +565,7 @@ def gen_case(rng):
 
 
 def gen(rng, tier):
-    n = 260 if tier == 'quick' else 2600
+    n = 1200 if tier == 'quick' else 12000
     for _ in range(n):
         yield gen_case(rng)
 
